@@ -58,6 +58,27 @@ var plans = map[string]plan{
 		Quick:    []job{{"plain", 8}, {"poison", 8}},
 		Thorough: []job{{"plain", 16}, {"poison", 16}},
 	},
+	"C01": {
+		Level:    "exploration",
+		Rule:     "case = sequence of 1..40 codec values (bool, byte, i16, i32, i64, double, string, binary, field begin/stop, map/list/set begin with sizes up to 2^31-1, message begin) written by the in-place writer (into an exact-length canary-margined buffer), the appending writer (onto a random prefix/capacity) and the stream writer (over a recording io.Writer and over a bytes writer), each compared byte-for-byte with an independent big-endian encoder and with the advertised length; then decoded by the buffer reader at running offsets (input in a guard-page arena) and by the stream reader over a hostile source (6 fragmentation schedules, zero-byte reads, EOF with data) and over a bytes reader. Exhaustive over all bool/i8/i16 (thorough: all 2^32 i32), boundary string lengths (thorough: every length 0..9000). Non-trivial iff >= 2 kinds, or a string > 4000 bytes, or a fragmenting schedule; distinct by (values, schedule).",
+		Required: []string{"values round-tripped", "stream bytes compared", "string-length cases"},
+		Quick:    []job{{"plain", 8}},
+		Thorough: []job{{"plain", 16}, {"race", 4}},
+	},
+	"C06": {
+		Level:    "exploration",
+		Rule:     "case = header parameter set (flags, sequence id, protocol id incl. unsupported ones, int/str info maps of 0..200 entries with empty/binary/long keys and values, ACL-token key alone or with others) + payload length, encoded by EncodeToBytes and by Encode over a buffered writer, checked by a strict independent layout parser, decoded by an independent decoder and by the library (bytes-backed and over a hostile fragmenting source); header-info sizes swept exactly over 65536-16..65536+16 in three shapes, every padding residue, all flags (stride in quick), all 256 protocol ids, oversize keys/values/entry counts. Non-trivial iff >= 1 info entry or size within 64 of the limit; distinct by parameter set + payload length.",
+		Required: []string{"frames encoded", "frames round-tripped", "encode errors", "frames with padding", "size-limit cases", "frames with exactly 65536 info bytes", "unsupported-protocol frames"},
+		Quick:    []job{{"plain", 8}},
+		Thorough: []job{{"plain", 16}},
+	},
+	"C10": {
+		Level:    "exploration",
+		Rule:     "case = hostile frame bytes decoded by Decode over a bytes reader at two guard-page placements, DecodeFromBytes, and Decode over a fragmenting source, each compared with an independent decoder (reject reasons: magic, declared size outside 2..65536, protocol id, transform count, incomplete section, unknown info id) and, on success, field by field incl. HeaderLen/PayloadLen/maps and bytes consumed. Exhaustive: all 65536 header-size fields x 3 bodies, all flags, all magic half-words, all protocol/info id bytes, all transform counts, string lengths overshooting the info block by 1..4 with and without payload; random: section orders/repeats/interleaved padding with truncations and byte perturbations. Non-trivial: every case (the magic check alone decides only the all-magic stage); distinct by frame bytes.",
+		Required: []string{"frames accepted", "frames rejected", "size fields >= 0x4000 tried", "overshooting string lengths", "full truncation sweeps"},
+		Quick:    []job{{"plain", 8}},
+		Thorough: []job{{"plain", 16}, {"asan", 4}},
+	},
 }
 
 func init() {
